@@ -41,6 +41,22 @@ def classify(sc, ob, verdict):
     return None
 
 
+def judge_impl(cases, obs):
+    out = []
+    for i, ((sc, info), ob) in enumerate(zip(cases, obs)):
+        if info.get("k") != "feedback" or info.get("op") != "switch_on_next" or ob["out"] != "ok":
+            continue
+        vals = [int(x[2][1]) for x in ob["log"] if x[0] == "t0" and x[2][0] == "n"]
+        seen_target = False
+        for v in vals:
+            if v >= 100:
+                seen_target = True
+            elif seen_target:
+                out.append((i, "switch_on_next delivered the source's item %d after an item of the target had come through: %s" % (v, vals)))
+                break
+    return out
+
+
 def mk_hot(opn, nsrc, emits, rng):
     ps = [] if opn != "combine_latest" else [rng.choice(["list", "sum"])]
     p = op(opn, ps, ["hot", 0], *[["hot", j] for j in range(1, nsrc)])
@@ -101,6 +117,20 @@ def generate(rng, tier, focus):
                 if rng.random() > ((0.08 if thorough else 0.03) if k >= 4 else (0.5 if k == 3 else 1.0)):
                     continue
                 cases.append((scn(subjects=[["subject"]] * 3, handles=1, script_=[sub(0, p)] + [["emit", h, ev] for (h, ev) in t]), {"k": "dyn-hot"}))
+    # feedback: the subscriber, from inside its i-th callback, emits into one of the operator's hot sources (the operator is
+    # re-entered while it is delivering); judged by the correspondence, and for switch_on_next by its rule: once the target has
+    # emitted, nothing of the source comes through any more
+    for _ in range(3000 if thorough else 450):
+        opn = rng.choice(["switch_on_next", "switch_on_next", "merge", "amb", "take_until", "skip_until", "sample", "concat", "zip"])
+        p = scen.multi_op(rng, opn, ["hot", 0], [["hot", 1]])
+        i = rng.randrange(0, 3)
+        fh = rng.choice([0, 1])
+        fb = (i, ["emit", fh, n(100 * fh + rng.choice([70, 80]))])          # (items of source h are 100*h + v)
+        evs = []
+        for _ in range(rng.randrange(2, 7)):
+            h = rng.choice([0, 1])
+            evs.append(["emit", h, rng.choice([n(100 * h + 1), n(100 * h + 2), n(100 * h + 3), n(100 * h + 4), C])])
+        cases.append((scn(subjects=[["subject"]] * 2, handles=1, script_=[sub(0, p, fb)] + evs), {"k": "feedback", "op": opn}))
     # flat_map whose set of inner observables CHURNS: three hot inner sources, opened by outer items (value mod 3), completing at
     # random moments while others are still running and further ones are opened afterwards (the registration of a running inner
     # observable must survive the departure of an older one and the arrival of a newer one)
